@@ -213,7 +213,7 @@ CTOR = {'Lower': 'Lower', 'Upper': 'Upper', 'Bound::Lower': 'Lower', 'Bound::Upp
         'Predicate::Including': 'Including', 'Predicate::Excluding': 'Excluding', 'Predicate::Unbounded': 'Unbounded',
         'Some': 'Some', 'None': 'None',
         'GreaterThan': 'OpGT', 'GreaterThanEquals': 'OpGTE', 'LessThan': 'OpLT', 'LessThanEquals': 'OpLTE', 'Exact': 'OpExact',
-        'Ordering::Less': 'Lt', 'Ordering::Equal': 'Eq', 'Ordering::Greater': 'Gt', 'Identifier::Numeric': 'Num'}
+        'Ordering::Less': 'Lt', 'Ordering::Equal': 'Eq', 'Ordering::Greater': 'Gt', 'Identifier::Numeric': 'Num', 'Identifier::AlphaNumeric': 'Alpha'}
 PARTIAL_FIELDS = ['major', 'minor', 'patch', 'pre_release', 'build']
 def ident(n):
     return {'build': 'build_', 'patch': 'patch_', 'major': 'major_', 'minor': 'minor_', 'pre_release': 'pre_release_', 'partial': 'partial_', 'lower': 'lower_', 'upper': 'upper_'}.get(n, n)
